@@ -269,15 +269,15 @@ func releasedValue(call *ssa.CallCommon) ssa.Value {
 		return nil
 	}
 	if f.Name() == "Put" && len(call.Args) == 2 {
-		if g, ok := call.Args[0].(*ssa.Global); ok && strings.HasSuffix(g.Name(), "Pool") {
+		if g, ok := call.Args[0].(*ssa.Global); ok && isSyncPool(g) {
 			return unwrapIface(call.Args[1])
 		}
 	}
-	if inModule(f) && strings.HasPrefix(f.Name(), "Put") && len(call.Args) == 1 {
+	if inModule(f) && len(call.Args) == 1 {
 		// helper that puts its parameter into a pool
 		puts := false
 		allInstrs(f, func(in ssa.Instruction) {
-			if c, ok := in.(*ssa.Call); ok && c.Call.StaticCallee() != nil && c.Call.StaticCallee().Name() == "Put" && len(c.Call.Args) == 2 {
+			if c, ok := in.(*ssa.Call); ok && c.Call.StaticCallee() != nil && fnName(c.Call.StaticCallee()) == "Put" && len(c.Call.Args) == 2 {
 				if unwrapIface(c.Call.Args[1]) == ssa.Value(f.Params[0]) {
 					puts = true
 				}
